@@ -238,6 +238,10 @@ pub fn scenario_seed(prop: &str, seed: u64, index: u64) -> u64 {
 
 pub fn scenario(prop: &str, tier: &str, sseed: u64, index: u64) -> (&'static str, Scenario) {
     if prop == "C12" {
+        if index % 8 == 7 {
+            let mut g = G::new(crate::mix(sseed, index));
+            return ("deadlock-panic-then-followup", families::cycle_then_followup(&mut g));
+        }
         let (sc, _, _) = families::crash_point_scenario(sseed, index);
         return ("crash-point-enumeration", sc);
     }
